@@ -27,6 +27,7 @@ type User struct {
 	Small int32
 	Flag  bool
 	Note  string `sql:",implicitnull"`
+	Blob  []byte // nil = NULL, empty = '' (two different column values)
 }
 
 const Table = "users"
@@ -41,6 +42,7 @@ var Def = fakesql.TableDef{Name: Table, PK: []string{"id"}, Cols: []fakesql.ColD
 	{Name: "small", Type: fakesql.Int, Bits: 32},
 	{Name: "flag", Type: fakesql.Bool},
 	{Name: "note", Type: fakesql.Text, Nullable: true},
+	{Name: "blob", Type: fakesql.Blob, Nullable: true},
 }}
 
 func Schema() *sqlgen.Schema {
@@ -58,6 +60,12 @@ func RandomUser(r *rand.Rand, id int64) *User {
 		Flag: r.Intn(2) == 0, Note: []string{"", "n"}[r.Intn(2)]}
 	if r.Intn(3) != 0 {
 		u.Age = p64(int64(5 + r.Intn(2)))
+	}
+	switch r.Intn(3) {
+	case 0:
+		u.Blob = []byte{}
+	case 1:
+		u.Blob = []byte("k")
 	}
 	if r.Intn(3) != 0 {
 		u.Nick = pl(Label([]string{"x", "y"}[r.Intn(2)]))
@@ -86,7 +94,10 @@ func Abs(row []driver.Value) map[string]string {
 // AbsUser is Abs of the row a User struct is stored as.
 func AbsUser(u *User) map[string]string {
 	m := map[string]string{"id": fmt.Sprint(u.Id), "org": fmt.Sprint(u.Org), "name": u.Name, "age": "NULL", "nick": "NULL",
-		"kind": fmt.Sprint(int64(u.Kind)), "small": fmt.Sprint(u.Small), "flag": "0", "note": "NULL"}
+		"kind": fmt.Sprint(int64(u.Kind)), "small": fmt.Sprint(u.Small), "flag": "0", "note": "NULL", "blob": "NULL"}
+	if u.Blob != nil {
+		m["blob"] = string(u.Blob)
+	}
 	if u.Age != nil {
 		m["age"] = fmt.Sprint(*u.Age)
 	}
@@ -119,12 +130,13 @@ var Reps = map[string][]string{
 	"small": {"int32", "int64", "int"},
 	"flag":  {"bool"},
 	"note":  {"implicit"}, // implicitnull column: the Go zero value "" denotes NULL
+	"blob":  {"bytes", "bytes", "nil"},
 }
 
 // Domains lists the values filters are drawn from, per column.
 var Domains = map[string][]string{
 	"id": {"1", "2", "3", "4", "9"}, "org": {"1", "2"}, "name": {"a", "b", "c", "zz"}, "age": {"5", "6", "7"}, "nick": {"x", "y"},
-	"kind": {"0", "1"}, "small": {"0", "1"}, "flag": {"0", "1"}, "note": {"NULL", "n"},
+	"kind": {"0", "1"}, "small": {"0", "1"}, "flag": {"0", "1"}, "note": {"NULL", "n"}, "blob": {"", "k", ""},
 }
 
 // Go builds the Go value for (column, FVal).
